@@ -165,6 +165,7 @@ class CInterp:
         self.stats = {"paths": 0, "pruned": 0, "merged": 0}
         self.cuts = None
         self.cuts_hit = set()
+        self.fit_cache = {}
 
     # ---------------------------------------------------------------- types
     def ctype(self, t):
@@ -211,7 +212,7 @@ class CInterp:
         goal = simp(goal) if isinstance(goal, z3.ExprRef) else goal
         if goal is True:
             return
-        o = Obl(label, self.func, line, st.pc, B(goal), kind=kind, meta=dict(meta or {}))
+        o = Obl(label, self.func, line, st.pc, B(goal), kind=kind, meta=dict(meta or {}), qhyps=st.qpc)
         if st.notes:
             o.bounded = "; ".join(sorted(set(st.notes)))
         self.obls.append(o)
@@ -380,6 +381,15 @@ class CInterp:
         self.loop_specs = spec.get("loops", {})
         self.unroll_default = spec.get("unroll", 0)
         self.loop_counter = 0
+        saved_ord = getattr(self, "loop_ordinals", None)
+        self.loop_ordinals = {}
+        def _number(nd):
+            if nd.get("kind") in ("WhileStmt", "ForStmt", "DoStmt"):
+                self.loop_ordinals[nd["id"]] = len(self.loop_ordinals) + 1
+            for c in nd.get("inner", []) or []:
+                if c:
+                    _number(c)
+        _number(fn)
         saved_cuts = (getattr(self, "cuts", None), getattr(self, "cuts_hit", None))
         self.cuts = spec.get("cuts")
         self.cuts_hit = set()
@@ -407,13 +417,14 @@ class CInterp:
         if self.cuts and set(self.cuts) - self.cuts_hit:
             raise Undecided("stage lemmas of %s not reached: %s (assignments renamed or reordered; contract needs review)" % (name, sorted(set(self.cuts) - self.cuts_hit)))
         self.cuts, self.cuts_hit = saved_cuts
+        self.loop_ordinals = saved_ord
         (self.func, self.mode, self.wrap_ok, self.loop_specs, self.loop_counter, self.unroll_default) = saved
         return outs
 
     # ---------------------------------------------------------------- statements
     def feasible(self, st, extra=None):
         hyps = st.pc + ([B(extra)] if extra is not None else [])
-        ok = smt.quick_sat(hyps, self.config.get("prune_ms", 1500))
+        ok = smt.quick_sat(hyps, self.config.get("prune_ms", 300), self.config.get("prune_full", True))
         if not ok:
             self.stats["pruned"] += 1
         return ok
@@ -658,8 +669,9 @@ class CInterp:
         return outs
 
     def loop(self, n, st, init, cond, inc, body):
-        self.loop_counter += 1
-        ordinal = self.loop_counter
+        ordinal = self.loop_ordinals.get(n["id"])
+        if ordinal is None:
+            raise EngineError("loop without ordinal")
         spec = self.loop_specs.get(ordinal)
         if spec and "invariant" in spec:
             return self.loop_invariant(n, st, ordinal, spec, cond, inc, body)
@@ -861,7 +873,7 @@ class CInterp:
                         raise Undecided("deref with offset into scalar")
                     outs.append((s, (p.obj, tuple(p.path))))
             return outs
-        raise Undecided("lvalue kind %s" % k)
+        raise Undecided("lvalue kind %s (%s) at %s:%s" % (k, n.get("opcode"), self.func, n.get("_line")))
 
     def ex_ParenExpr(self, n, st):
         return self.eval(n["inner"][0], st)
@@ -912,8 +924,13 @@ class CInterp:
                 outs.append((s, self.load(s, lv, line)))
             return outs
         if ck == "ArrayToPointerDecay":
-            if sub["kind"] == "StringLiteral":
-                return [(st, SStr((self.strlit(sub),)))]
+            core = sub
+            while core["kind"] == "ParenExpr" or (core["kind"] == "UnaryOperator" and core.get("opcode") == "__extension__"):
+                core = core["inner"][0]
+            if core["kind"] == "StringLiteral":
+                return [(st, SStr((self.strlit(core),)))]
+            if core["kind"] == "PredefinedExpr":
+                return [(st, SStr((self.func,)))]
             outs = []
             for s, (oid, path) in self.lvalue(sub, st):
                 outs.append((s, Ptr(oid, 0, path)))
@@ -962,7 +979,7 @@ class CInterp:
                     outs.append((s, v))   # widening: value preserved
                     continue
             if self.mode == "wrap" or self.in_wrap:
-                outs.append((s, self.wrap(v, ct)))
+                outs.append((s, self.wrap_st(s, v, ct)))
             else:
                 self.fits(s, v, ct, line, "cast to %s" % ct.name)
                 outs.append((s, v))
@@ -1136,9 +1153,43 @@ class CInterp:
             r = simp({"+": Z(a) + Z(b), "-": Z(a) - Z(b), "*": Z(a) * Z(b)}[op])
         if ct is not None and ct.kind == "int" and not nocheck:
             if self.mode == "wrap" or self.in_wrap:
-                return self.wrap(r, ct)
+                return self.wrap_st(st, r, ct)
             self.fits(st, r, ct, line, "%s in %s" % (op, ct.name))
         return r
+
+    def wrap_st(self, st, v, ct):
+        """modulo-2^N semantics; the reduction is omitted when the path condition proves the value is in range.
+        Proofs are cached with their unsat core (a set of path-condition conjuncts), so that other paths that
+        contain the same conjuncts reuse them."""
+        if is_conc(v) or isinstance(v, (Opaque, Ptr)) or ct.kind != "int":
+            return self.wrap(v, ct)
+        lo, hi = ct.rng()
+        key = (Z(v).sexpr(), ct.bits, ct.signed)
+        ids = {h.get_id(): h for h in st.pc}
+        ent = self.fit_cache.get(key)
+        if ent is not None:
+            for core in ent["cores"]:
+                if core <= ids.keys():
+                    return v
+            if ent["neg"] >= 3:
+                return self.wrap(v, ct)
+        else:
+            ent = self.fit_cache[key] = {"cores": [], "neg": 0, "keep": []}
+        s = z3.Solver()
+        s.set("timeout", 400)
+        lits = []
+        for i, h in ids.items():
+            l = z3.Bool("pc!%d" % i)
+            s.add(z3.Implies(l, h))
+            lits.append(l)
+        s.add(z3.Or(Z(v) < lo, Z(v) > hi))
+        if s.check(*lits) == z3.unsat:
+            core = frozenset(int(str(c)[3:]) for c in s.unsat_core())
+            ent["cores"].append(core)
+            ent["keep"].append([ids[i] for i in core])      # keep the ASTs alive so that ids stay unique
+            return v
+        ent["neg"] += 1
+        return self.wrap(v, ct)
 
     def compare(self, op, a, b):
         if isinstance(a, Ptr) or isinstance(b, Ptr):
